@@ -63,7 +63,8 @@ theorem compileCase_eq (name : Name) (lits : List Name) (l : List Sexp) (imp : B
                   depths := caseDepths name lits l ctx,
                   sflags := { d := (renameAtDefinition { pvars := (caseDepths name lits l ctx).map (·.1), lits := lits } body).2.any
                                       (fun x => (freeOcc (2 * body.size + 2) [] body).contains x),
-                              f := depthMismatch (caseDepths name lits l ctx) (2 * body.size + 2) 0 body } } := by
+                              f := depthMismatch (caseDepths name lits l ctx) (2 * body.size + 2) 0 body,
+                              j := twoEll body } } := by
   rfl
 
 theorem compileCase_body (name : Name) (lits : List Name) (pattern body : Sexp) (cs : MacroCase)
